@@ -181,7 +181,14 @@ def compare(net_a, net_b, M, dc=False, skip_cols=()):
                     cands = [float(np.sum(vals))]
                 else:
                     cands = [float(v) for v in vals]
+                cross = any(img[0] != t for img in imgs)
+                if not cross and "in_service" in net_a[t].columns and i in net_a[t].index:
+                    cross = not bool(net_a[t].at[i, "in_service"])
                 for bv in cands:
+                    if cross and ((np.isnan(a) and bv == 0.) or (a == 0. and np.isnan(bv))):
+                        # "no power": 0 in one result table, NaN in another (element type changed) or for an
+                        # out-of-service element (which of the two is reported is the subject of C07, not of C05/C23)
+                        continue
                     if np.isnan(a) != np.isnan(bv):
                         out.append({"table": t, "index": i, "col": col, "a": float(a), "b": bv})
                         break
@@ -309,12 +316,13 @@ def t_unparallel(net, idx):
     n = int(net.line.at[idx, "parallel"])
     n2.line.at[idx, "parallel"] = 1
     imgs = [("line", int(idx), False)]
+    M = identity_map(net)
     for _ in range(n - 1):
         ni = _append_row_copy(n2, "line", idx)
         imgs.append(("line", ni, False))
         for s in net.switch.index[(net.switch.et == "l") & (net.switch.element == idx)]:
-            _append_row_copy(n2, "switch", s, element=ni)
-    M = identity_map(net)
+            ns = _append_row_copy(n2, "switch", s, element=ni)
+            M["el"]["switch"][int(s)].append(("switch", ns, False))   # the line's switch current splits as well
     M["el"]["line"][int(idx)] = imgs
     return n2, M
 
@@ -387,6 +395,7 @@ def t_add(net, what, bus):
     return n2, identity_map(net)
 
 
+ADD_THOROUGH_ONLY = ("oos_sgen", "oos_storage", "zero_storage", "zero_sgen")
 NEED_OTHER = ("oos_line", "oos_impedance", "oos_dcline", "open_bb_switch")
 ADD_CORE = ["oos_gen", "oos_ext_grid", "oos_xward", "oos_bus", "zero_load", "zero_shunt", "open_bb_switch"]
 ADD_KINDS = ["oos_load", "oos_sgen", "oos_gen", "oos_ext_grid", "oos_shunt", "oos_ward", "oos_xward", "oos_storage",
@@ -452,22 +461,24 @@ def has_zip(net):
 
 def enum_transforms(net, tier, hot):
     """Deterministic list of [descriptor, level] of every applicable (transformation, target).
-    level 0: run under every option set of the case; level 1: in the quick tier only under the first option set."""
+    level 0: run under every option set of the case; in the quick tier level 1 = only under the first option set
+    (ac), level 2 = under the first two (ac, ac without numba: the numpy bus-fusing path)."""
     quick = tier == "quick"
     T = [[["sn"], 0]]
     for tab in ["bus"] + RES_TABLES:
         n = len(net[tab])
         if not n:
             continue
+        lvl = 0 if tab in ("bus", "switch", "xward", "trafo3w") else 3      # 3 = first and last option set (ac, dc)
         hows = ["gap", "gapperm"] if quick else ["gap", "perm", "shift", "gapperm"]
         for how in hows:
             if how == "perm" and n < 2:
                 continue
-            T.append([["relabel", tab, how], 0])
+            T.append([["relabel", tab, how], lvl])
         if n >= 2:
-            T.append([["rowperm", tab, "rev"], 0])
+            T.append([["rowperm", tab, "rev"], lvl])
             if n >= 3 and not quick:
-                T.append([["rowperm", tab, "rot"], 0])
+                T.append([["rowperm", tab, "rot"], lvl])
     for tab in ("load", "sgen"):
         for i in net[tab].index:
             if tab == "load" and _is_zip(net, i):
@@ -480,12 +491,12 @@ def enum_transforms(net, tier, hot):
         T.append([["swapline", int(i)], 0])
     for k, b in enumerate(hot):
         for what in ADD_KINDS:
-            if quick and k > 0 and what not in ADD_CORE:
+            if quick and ((k > 0 and what not in ADD_CORE) or what in ADD_THOROUGH_ONLY):
                 continue
             if what in NEED_OTHER and not any(b2 != b and net.bus.at[b2, "vn_kv"] == net.bus.at[b, "vn_kv"]
                                               for b2 in net.bus.index):
                 continue        # no second bus of the same voltage level to connect to
-            T.append([["add", what, int(b)], 0 if what in ADD_CORE else 1])
+            T.append([["add", what, int(b)], 0 if (what in ADD_CORE and k == 0) else 1])
     for b in net.bus.index:
         terms = terminals(net, b)
         subs = []
@@ -500,9 +511,22 @@ def enum_transforms(net, tier, hot):
             subs.append(be)
         subs.append([])       # an empty new bus hanging on the switch
         for k, sel in enumerate(subs):
-            T.append([["splitbus", int(b), sel, "old_new"], k % 2])
-            T.append([["splitbus", int(b), sel, "new_old"], 1 - k % 2])
+            simple = len(sel) == 0 or len(sel) == n
+            da, db = ("old_new", "new_old") if k % 2 == 0 else ("new_old", "old_new")
+            T.append([["splitbus", int(b), sel, da], 0 if simple else 2])
+            T.append([["splitbus", int(b), sel, db], 1])
     return T
+
+
+def level_applies(level, opt, case_opts, tier):
+    if tier != "quick" or level == 0:
+        return True
+    k = case_opts.index(opt)
+    if level == 1:
+        return k == 0
+    if level == 2:
+        return k <= 1
+    return k == 0 or k == len(case_opts) - 1
 
 
 def apply_transform(net, tf):
